@@ -1501,10 +1501,10 @@ class InitialBHPopulation:
 
                     # The normalization constant
                     # TODO deal with the constant divide-by-zero warning here
-                    Aj = Nj / Pk(IMF.a[-1], 1, m1, mto)
+                    Aj = Nj / Pk(alphas[isev], 1, m1, mto)
 
                     # Get the number of turn-off stars per unit of mass
-                    dNdm = Aj * mto**IMF.a[-1]
+                    dNdm = Aj * mto**alphas[isev]
 
                 else:
                     dNdm = 0
@@ -1563,6 +1563,9 @@ class InitialBHPopulation:
 
         init_N, init_M = massbins.initial_values(packed=False, N0=N0)
 
+        # IMF slope within each stellar bin
+        *_, alphas = IMF.binned_eval(massbins.bins.MS, N=N0)
+
         # ------------------------------------------------------------------
         # Integrate and solve the derivatives (evolve)
         # ------------------------------------------------------------------
@@ -1599,7 +1602,6 @@ class InitialBHPopulation:
 
         Ns = sol.y[:nbin_MS]
 
-        alphas = np.repeat(IMF.a, massbins._nbin_MS_each)
         As = Ns / Pk(alphas, 1, *massbins.bins.MS)
         Ms = As * Pk(alphas, 2, *massbins.bins.MS)
 
